@@ -163,6 +163,24 @@ def r16_2(prog, rep, reg):
         rep.counts["R16.2"] = rep.counts.get("R16.2", 0) + 1
 
 
+def _is_broadcast(stmts, shapes, value, kind="result"):
+    """the block is the single statement `result = <array of one of `shapes` filled with `value`>` (or `return ...`)"""
+    from . import shared as _sh
+    if len(stmts) != 1:
+        return False
+    st = stmts[0]
+    if kind == "result":
+        if not (isinstance(st, ast.Assign) and unparse(st.targets[0]) == "result"):
+            return False
+        e = st.value
+    else:
+        if not (isinstance(st, ast.Return) and st.value is not None):
+            return False
+        e = st.value
+    bc = _sh.broadcast_of(e)
+    return bc is not None and bc[0] in shapes and bc[1] == value and bc[2] in (None, "float", "'float'", "np.float64", "'float64'")
+
+
 def r16_3(prog, rep):
     f = prog.fn("terms.call.Call.eval_new_data_offset")
     dm = f.params[1]
@@ -171,7 +189,7 @@ def r16_3(prog, rep):
     obl(rep, f, ifs[0] if ifs else f.node, "R16.3", ok, "offset: the remembered kind (constant / variable) selects the branch")
     if ok:
         cb = [unparse(s) for s in ifs[0].body]
-        obl(rep, f, ifs[0], "R16.3", cb == [f"result = np.ones(len({dm}.index)) * self.call.args[0].value"],
+        obl(rep, f, ifs[0], "R16.3", _is_broadcast(ifs[0].body, (f"len({dm}.index)", f"{dm}.shape[0]", f"len({dm})"), "self.call.args[0].value"),
             "constant offset: the literal argument broadcast to the row count of the NEW frame", str(cb),
             f"constant branch is {cb}")
         vb = " ; ".join(unparse(s) for s in ifs[0].orelse)
@@ -185,7 +203,7 @@ def r16_3(prog, rep):
     obl(rep, f, ifs[0] if ifs else f.node, "R16.3", ok, "prop: the remembered trials type selects the branch")
     if ok:
         cb = [unparse(s) for s in ifs[0].body]
-        obl(rep, f, ifs[0], "R16.3", cb == [f"result = np.ones(len({dm}.index)) * self.call.args[1].value"],
+        obl(rep, f, ifs[0], "R16.3", _is_broadcast(ifs[0].body, (f"len({dm}.index)", f"{dm}.shape[0]", f"len({dm})"), "self.call.args[1].value"),
             "constant trials: broadcast to the row count of the NEW frame", str(cb), f"constant branch is {cb}")
         vb = [unparse(s) for s in ifs[0].orelse]
         ok = vb[:2] == ["name = self.call.args[1].name", f"values = {dm}[name]"]
@@ -205,9 +223,12 @@ def r16_3(prog, rep):
     obl(rep, rm, rm.node, "R16.3", ok, "ResponseMatrix.evaluate_new_data: proportion -> trials of the new frame; every other kind is refused")
     off = prog.fn("transforms.Offset.eval")
     forms = {unparse(i.test): ([unparse(s) for s in i.body], [unparse(s) for s in i.orelse]) for i in walk_local(off.node) if isinstance(i, ast.If)}
-    want = (["return self.x.flatten()"], ["return np.ones((self.size, 1)) * self.x"])
-    obl(rep, off, off.node, "R16.3", forms.get("self.kind == 'variable'") == want, "Offset.eval: the stored values unchanged / the constant broadcast",
-        str(forms))
+    got = forms.get("self.kind == 'variable'")
+    okf = False
+    for i in walk_local(off.node):
+        if isinstance(i, ast.If) and unparse(i.test) == "self.kind == 'variable'":
+            okf = [unparse(s) for s in i.body] == ["return self.x.flatten()"] and _is_broadcast(i.orelse, ("(self.size, 1)",), "self.x", kind="return")
+    obl(rep, off, off.node, "R16.3", okf, "Offset.eval: the stored values unchanged / the constant broadcast", str(forms))
 
 
 def r16_4(prog, rep):
@@ -285,9 +306,12 @@ def r16_6(prog, rep):
     pr = prog.fn("transforms.proportion")
     rets = _rets(pr)
     obl(rep, pr, pr.node, "R16.6", len(rets) == 1 and unparse(rets[0].value) == "Proportion(successes, trials, trials_type)", "proportion() hands successes, trials to Proportion in order")
-    const = [s_ for s_ in ast.walk(pr.node) if isinstance(s_, ast.Assign) and unparse(s_.targets[0]) == "trials" and "np.ones" in unparse(s_.value)]
-    obl(rep, pr, const[0] if const else pr.node, "R16.6", len(const) == 1 and unparse(const[0].value) == "np.ones(len(successes), dtype=int) * trials",
-        "constant trials are broadcast to the length of the successes")
+    from . import shared as _sh
+    const = [s_ for s_ in ast.walk(pr.node) if isinstance(s_, ast.Assign) and unparse(s_.targets[0]) == "trials" and _sh.broadcast_of(s_.value) is not None]
+    bc = _sh.broadcast_of(const[0].value) if len(const) == 1 else None
+    obl(rep, pr, const[0] if const else pr.node, "R16.6", bc is not None and bc[0] in ("len(successes)", "successes.shape[0]", "successes.shape", "successes.size")
+        and bc[1] == "trials" and bc[2] in ("int", "'int'", "np.int64", "'int64'"),
+        "constant trials are broadcast to the length of the successes", str(bc))
     of = prog.fn("transforms.offset")
     rets = _rets(of)
     obl(rep, of, of.node, "R16.6", len(rets) == 1 and unparse(rets[0].value) == f"Offset({of.params[0]})", "offset(v) wraps v unchanged")
